@@ -351,7 +351,7 @@ class Run:
                 log("note: known finding %s no longer reproduces (witness accepted)" % k["id"])
 
     # ------------------------------------------------------------ self test
-    def selftest(self, outdir, meta, gen, spec=None, dfs=False, field=None, removed=True):
+    def selftest(self, outdir, meta, gen, spec=None, dfs=False, field=None, removed=True, remove_match=None):
         """Binding demonstration: a corrupted field and a removed event of a good
         history must both be rejected by the trace specification."""
         for job in meta.get("jobs", []):
@@ -365,8 +365,13 @@ class Run:
             h = cand[0]
             # (a) corrupt one recorded field
             hc, what = corrupt(h, field)
-            # (b) remove one event (the second one: first after Reset)
-            hr = [h[0]] + h[2:]
+            # (b) remove one event (default: the first after Reset; remove_match: the first event having these fields)
+            ri = 1
+            if remove_match:
+                ri = next((i for i in range(1, len(h)) if all(json.loads(h[i]).get(k) == v for k, v in remove_match.items())), None)
+                if ri is None:
+                    raise MachineryError("self-test: no event matching %s in history of gen %s" % (remove_match, gen))
+            hr = h[:ri] + h[ri + 1:]
             res = {}
             for tag, hh in (("corrupted_field", hc), ("removed_event", hr)):
                 if hh is None or (tag == "removed_event" and not removed):
